@@ -27,21 +27,28 @@ import kern2 as k2
 from hv import Case
 
 SPEC = {
-    "lean_modules": ["Honeycomb.Props.C11", "Honeycomb.Props.C11b", "Honeycomb.Props.C11c"],
+    "lean_modules": ["Honeycomb.Props.C11", "Honeycomb.Props.C11b", "Honeycomb.Props.C11c", "Honeycomb.Props.C11d", "Honeycomb.Props.C11e",
+                     "Honeycomb.Props.C11f"],
     "required_theorems": [
         "C11_import_ok_WF", "C11_importLegacy_ok_WF", "C11_roundTrip_ok_WF", "C11_buildCells_structure",
         "C11_import_faces_and_gluing", "C11_import_gluing_complete",
         "C11_sew_keeps_equal_coordinates", "C11_export_points", "C11_export_cells", "C11_export_walk",
         "C11_export_walk_closed", "C11_export_pointOf", "C11_crack_is_sewn",
         "C11_import_conforming_ok", "C11_export_ok", "C11_roundTrip_faces", "C11_roundTrip_adjacency",
-        "C11_roundTrip_bijection",
+        "C11_roundTrip_bijection", "C11_roundTrip_iso", "C11_grid2_exportable", "C11_grid2_noCrack",
+        "C11_grid_round_trip", "C11_split2_exportable", "C11_split2_noCrack", "C11_split_round_trip",
+        "C11_fan_local_faces", "C11_fan_boundary", "C11_fan_exportable", "C11_insert_vertex_local_faces",
+        "C11_insert_vertex_boundary", "C11_ascii_tokens_parse", "C11_asciiTokens_export",
     ],
     "trusted_base": [
         "Lean 4.33 kernel; axioms propext, Classical.choice, Quot.sound only",
         "hand-written data-level model Honeycomb/Model/Vtk.lean (exportPiece, importLegacy/importCells, sewLoop) tied to "
         "/repo by the hcmodel/hcimpl correspondence run (`vtkexp`, `vtkimp`, `vtkrt`, `snap`, `wf`)",
-        "vtkio 0.7.0-rc2 (legacy reader and writer, ASCII and binary) is OUTSIDE the model: the harness checks on every case "
-        "that the ASCII and the binary path carry the same piece / build the same map",
+        "vtkio 0.7.0-rc2: the BINARY writer and the reader (both formats) are OUTSIDE the model: the harness checks on every "
+        "case that the ASCII and the binary path carry the same piece / build the same map. The ASCII WRITER is modelled at "
+        "token level (Honeycomb/Model/VtkText.lean renderTokens, tied by the `vtkascii` stream to the tokenised real output "
+        "of to_vtk_ascii) and proved to be read back as the piece by a specification-level token reader "
+        "(C11_ascii_tokens_parse); blanks, line breaks and the decimal printing/parsing of floats stay trusted",
         "Rust harness /verif/harness/hcimpl/src/vtk.rs and tools/props/c11.py (independent Python reading of the export rule, "
         "canonical form of a mesh, expected result of a conforming import)",
     ],
@@ -70,12 +77,19 @@ SPEC = {
 SPEC["not_proved"] = [
     "floating point: every theorem is over exact rationals ((a+a)/2 = a, exact orientation test); the f64 / f32 behaviour "
     "(exact averages of equal values, the orientation test at tiny and huge scales) is validated by the tie, not proved",
-    "vtkio's reader/writer and float printing are outside the model (checked on the implementation: ASCII = binary on every case)",
-    "the composition theorems (C11_roundTrip_faces / _adjacency / _bijection) are stated for `Exportable` maps: closed faces "
-    "with >= 3 sides, all vertices defined, no two darts between the same ORDERED pair of vertices, different coordinates "
-    "at the two ends of every side; adjacency additionally needs `NoCrack` (necessary: known finding C11-crack, Lean witness "
-    "C11_crack_is_sewn). That triangulated / remeshed meshes produced by the kernels satisfy these hypotheses is not proved "
-    "(the round-trip oracle evaluates the property on them).",
+    "vtkio's BINARY writer and its reader (both formats), the blanks / line structure of the ASCII text and float decimal "
+    "printing/parsing are outside the model (ASCII writer: token-level model + C11_ascii_tokens_parse; checked on the "
+    "implementation: ASCII = binary on every case, wide-coordinate stream)",
+    "grids: C11_grid_round_trip / C11_split_round_trip are PROVED for every nx, ny >= 1 and non-zero cell lengths (full "
+    "isomorphism: faces, adjacency, boundary, coordinates). Polygons: a single closed polygon is an instance of "
+    "C11_roundTrip_iso once its Exportable conditions (distinct consecutive corners, no repeated ordered pair) are given.",
+    "triangulated / refined meshes: after fan (C11_fan_local_faces, C11_fan_boundary, C11_fan_exportable) and after "
+    "insert_vertex_on_edge (C11_insert_vertex_local_faces, C11_insert_vertex_boundary) the TOPOLOGICAL hypotheses (closed "
+    "faces with >= 3 sides, same boundary) are proved; the POSITIONAL ones (no two darts with the same ordered pair of "
+    "positions, different positions at the ends of a side, no crack) are hypotheses of C11_fan_exportable / "
+    "exportable_of_pos: they hold when the new diagonals / the new point do not coincide with existing edges / vertices "
+    "(star-shaped polygon of an embedded mesh; a point strictly inside an edge) - geometry, NOT proved; ear clipping and "
+    "the k-vertex kernel insert_vertices_on_edge are not treated; swap/cut/collapse kernels are not in the harness",
     "export of maps OUTSIDE `Exportable` (open faces, faces with <= 2 darts, isolated darts): only the general shape "
     "theorems C11_export_points / _cells / _walk apply; the panic conditions are tied by the correspondence run only",
 ]
@@ -366,6 +380,16 @@ def oracle(case, li):
                     want = predict_export(s)
                     if li[i] != want:
                         return f"export differs from the export rule: got {li[i][:160]!r} expected {want[:160]!r}"
+        return None
+    if kind == "ascii":
+        exp, asc = li[-2], li[-1]
+        if exp == "panic" or asc == "panic":
+            return None if exp == asc else f"export and ASCII text disagree on panicking: {exp[:40]!r} / {asc[:40]!r}"
+        if not exp.startswith("ok ") or not asc.startswith("ok "):
+            return f"unexpected replies {exp[:60]!r} / {asc[:60]!r}"
+        got = parse_ascii_tokens(asc[3:].split())
+        if got != exp[3:].strip() and got.strip() != exp[3:].strip():
+            return f"the ASCII tokens do not denote the exported piece: {got[:160]!r} vs {exp[3:163]!r}"
         return None
     if kind == "observe":
         return None
@@ -908,6 +932,51 @@ def cracked_grid_cases(rng, count, nmax=4):
 
 
 # ---------------------------------------------------------------------------------------------
+# the ASCII text at token level (writer side)
+# ---------------------------------------------------------------------------------------------
+
+ASCII_HEADER = "# vtk DataFile Version 2.0 cmap ASCII DATASET UNSTRUCTURED_GRID".split()
+
+
+def parse_ascii_tokens(toks):
+    """independent reading of the legacy ASCII tokens: returns the data string of `vtkexp` or an error text"""
+    if toks[:len(ASCII_HEADER)] != ASCII_HEADER:
+        return "bad header: " + " ".join(toks[:10])
+    r = toks[len(ASCII_HEADER):]
+    try:
+        if r[0] != "POINTS" or r[2] not in ("double", "float"):
+            return "bad POINTS header"
+        n = int(r[1])
+        cs, r = r[3:3 + 3 * n], r[3 + 3 * n:]
+        if r[0] != "CELLS":
+            return "bad CELLS header"
+        nc, size = int(r[1]), int(r[2])
+        vs, r = r[3:3 + size], r[3 + size:]
+        if r[0] != "CELL_TYPES":
+            return "bad CELL_TYPES header"
+        k = int(r[1])
+        ts, r = r[2:2 + k], r[2 + k:]
+        if r != ["POINT_DATA", str(n), "CELL_DATA", str(nc)]:
+            return "bad tail: " + " ".join(r)
+        if len(cs) != 3 * n or len(vs) != size or len(ts) != k:
+            return "short data"
+        [Fr(c) for c in cs], [int(v) for v in vs], [int(t) for t in ts]
+    except (IndexError, ValueError) as ex:
+        return f"malformed: {ex}"
+    return f"{' '.join(cs)} ; {nc} ; {' '.join(vs)} ; {' '.join(ts)}"
+
+
+def ascii_cases(rng, count):
+    cases = []
+    srcs = [c.lines[:-len(RT_TAIL)] for c in grid_cases(2) + polygon_cases(rng, 1) + shared_cases(rng, count)]
+    for k, pre in enumerate(srcs):
+        cases.append(Case(f"ascii{k}", pre + ["vtkexp", "vtkascii"], oracle="ascii", meta={"sig": "ascii tokens"}))
+    for c in export_general_cases(rng, count * 5):
+        cases.append(Case("ascii-" + c.cid, c.lines[:-5] + ["vtkexp", "vtkascii"], oracle="ascii", meta={"sig": "ascii tokens (general maps)"}))
+    return cases
+
+
+# ---------------------------------------------------------------------------------------------
 # tiny and huge scales: the behaviour must not depend on the unit of length
 # ---------------------------------------------------------------------------------------------
 
@@ -1074,6 +1143,7 @@ def run(tier, seed):
     r["stats"]["exhaustive"] = True
     parts.append((f"export / round trip of every well-formed map with n<={3 if q else 4}", r))
     parts.append(("general well-formed maps", hv.campaign(export_general_cases(rng, 2000 if q else 20000), oracle)))
+    parts.append(("ASCII text at token level (writer side)", hv.campaign(ascii_cases(rng, 40 if q else 400), oracle)))
     parts.append(("tiny and huge scales (2^-34, 2^30)", hv.campaign(scale_cases(rng, 25 if q else 250), oracle)))
     parts.append(("cracked grids", hv.campaign(cracked_grid_cases(rng, 150 if q else 1500, 4 if q else 7), oracle, max_report=10 ** 6)))
     rx = hv.campaign(excluded_cases(), oracle)
